@@ -85,6 +85,16 @@ def doWF (g : List α) (P N Es : α) : Except PyErr (List α × α) :=
     the `ℚ` instance of the polymorphic text the theorems are about) -/
 def doWFRat (g : List Rat) (P N Es : Rat) : Except PyErr (List Rat × Rat) := doWF g P N Es
 
+/-- the Python call `doWF(vtChannels, dPt[, noiseVar][, Es])` (R8): an argument that is left
+    out — positionally or by keyword — takes its default value `1.0`; `none` = left out -/
+def doWFCall (g : List α) (P : α) (N Es : Option α) : Except PyErr (List α × α) :=
+  doWF g P (match N with | some x => x | none => ((1 : Nat) : α))
+           (match Es with | some x => x | none => ((1 : Nat) : α))
+
+/-- `doWFCall` at the driver's instances -/
+def doWFCallRat (g : List Rat) (P : Rat) (N Es : Option Rat) : Except PyErr (List Rat × Rat) :=
+  doWFCall g P N Es
+
 /-- formula of the returned level before commit `fix: doWF water level` (kept as the
     record of finding C12:doWF:water-level-missing-Es): `vtOptPaux[0] + noiseVar/g_best` -/
 def muPreFix (aux0 N : α) (best : Chan α) : α := aux0 + N / best.1
